@@ -758,7 +758,7 @@ func (g GeoJSONExpression) ToProto() (*pb.NodeProto, error) {
 }
 
 func GeoJSONExpressionFromProto(node *pb.NodeProto) (Expression, error) {
-	panic("Unimplemented")
+	return Expression{}, fmt.Errorf("Can't convert GeoJSON literals from protos")
 }
 
 func (g GeoJSONExpression) Clone() Expression {
